@@ -9,8 +9,12 @@ import (
 	"math/rand"
 	"net/http"
 	"net/url"
+	"runtime"
 	"sort"
 	"strings"
+	"sync"
+	"sync/atomic"
+	"time"
 
 	"github.com/whoisnian/glb/httpd"
 
@@ -33,13 +37,19 @@ type Case struct {
 	Std    bool    `json:"std,omitempty"`
 	// PanicEvery > 0: every n-th handler invocation panics after observing (the harness recovers,
 	// like net/http does per connection); later requests must be dispatched as if nothing happened.
-	PanicEvery int   `json:"panic_every,omitempty"`
-	Reqs       []Req `json:"reqs,omitempty"`
+	PanicEvery int `json:"panic_every,omitempty"`
+	// Conc > 0: after registration the requests are served by that many goroutines at once on the
+	// one Mux (each goroutine walks the whole request list, starting at its own offset).
+	Conc int   `json:"conc,omitempty"`
+	Reqs []Req `json:"reqs,omitempty"`
 }
 
 type handlerPanic struct{}
 
-type nullWriter struct{ h http.Header }
+type nullWriter struct {
+	h http.Header
+	o *obs // observation slot of the request being served through this writer
+}
 
 func (w *nullWriter) Header() http.Header         { return w.h }
 func (w *nullWriter) Write(b []byte) (int, error) { return len(b), nil }
@@ -56,7 +66,7 @@ type obs struct {
 }
 
 type stats struct {
-	dispatches, matched, noroute, tablesInvalid, malformedAsRooted, malformedAsNoRoute, handlerPanics int64
+	dispatches, matched, noroute, tablesInvalid, malformedAsRooted, malformedAsNoRoute, handlerPanics, concDispatches int64
 }
 
 var stdReqs = buildStdReqs()
@@ -123,11 +133,14 @@ func runCase(cs Case, st *stats) (key, expected, observed string) {
 		names = append(names, n)
 	}
 	sort.Strings(names)
-	invocations := 0
+	var invocations atomic.Int64
 	observe := func(idx int) httpd.HandlerFunc {
 		return func(s *httpd.Store) {
-			invocations++
-			if cs.PanicEvery > 0 && invocations%cs.PanicEvery == 0 {
+			o := &o // sequential mode: the case-wide slot
+			if nw, ok := s.W.Origin.(*nullWriter); ok && nw.o != nil {
+				o = nw.o
+			}
+			if n := invocations.Add(1); cs.PanicEvery > 0 && n%int64(cs.PanicEvery) == 0 {
 				defer panic(handlerPanic{})
 			}
 			o.calls++
@@ -165,6 +178,9 @@ func runCase(cs Case, st *stats) (key, expected, observed string) {
 	reqs := cs.Reqs
 	if cs.Std {
 		reqs = stdReqs
+	}
+	if cs.Conc > 0 {
+		return runConc(cs, mux, mt, names, reqs, st)
 	}
 	w := &nullWriter{h: http.Header{}}
 	u := &url.URL{}
@@ -228,6 +244,101 @@ func runCase(cs Case, st *stats) (key, expected, observed string) {
 	return "", "", ""
 }
 
+// runConc serves the request list from cs.Conc goroutines at once; every observation is judged
+// against the model like in the sequential mode (first disagreement per goroutine).
+func runConc(cs Case, mux *httpd.Mux, mt *mtable, names []string, reqs []Req, st *stats) (key, expected, observed string) {
+	type res struct {
+		key, exp, obs string
+		n, panics     int64
+	}
+	out := make([]res, cs.Conc)
+	var wg sync.WaitGroup
+	start := make(chan struct{})
+	for g := 0; g < cs.Conc; g++ {
+		wg.Add(1)
+		go func(g int) {
+			defer wg.Done()
+			rs := &out[g]
+			var o obs
+			w := &nullWriter{h: http.Header{}, o: &o}
+			u := &url.URL{}
+			hr := &http.Request{URL: u, Header: http.Header{}}
+			<-start
+			for rep := 0; rep < 20; rep++ {
+				for i := range reqs {
+					rq := reqs[(i+g*7)%len(reqs)]
+					if !strings.HasPrefix(rq.P, "/") {
+						continue
+					}
+					hr.Method, u.Path = rq.M, rq.P
+					o = obs{route: -2, params: o.params[:0]}
+					var pv any
+					func() {
+						defer func() { pv = recover() }()
+						mux.ServeHTTP(w, hr)
+					}()
+					rs.n++
+					rk := func(what string) string {
+						return what + ":conc:" + tableKey(cs.Routes) + "|" + rq.M + " " + fmt.Sprintf("%q", rq.P)
+					}
+					if _, own := pv.(handlerPanic); pv != nil && !own {
+						rs.key, rs.exp, rs.obs = rk("panic"), "no panic out of ServeHTTP", fmt.Sprintf("panic: %v", pv)
+						return
+					} else if own {
+						rs.panics++
+					}
+					want := mt.dispatch(rq.M, rq.P)
+					if o.calls != 1 || want.route != o.route {
+						rs.key, rs.exp, rs.obs = rk("route"), "exactly one invocation of "+descr(mt, want.route), fmt.Sprintf("%d invocations, last of %s", o.calls, descr(mt, o.route))
+						return
+					}
+					if want.route >= 0 {
+						if r := mt.routes[want.route]; o.iPath != r.pattern || o.iMethod != r.method {
+							rs.key, rs.exp, rs.obs = rk("info"), fmt.Sprintf("RouteInfo{%q,%q}", r.pattern, r.method), fmt.Sprintf("RouteInfo{%q,%q}", o.iPath, o.iMethod)
+							return
+						}
+					}
+					for i, n := range names {
+						if wv := want.params[n]; i >= len(o.params) || o.params[i] != wv {
+							rs.key, rs.exp, rs.obs = rk("param"), fmt.Sprintf("RouteParam(%q)=%q in %s", n, wv, descr(mt, want.route)), fmt.Sprintf("%q", o.params)
+							return
+						}
+					}
+					if o.any != want.any {
+						rs.key, rs.exp, rs.obs = rk("any"), fmt.Sprintf("RouteParamAny()=%q", want.any), fmt.Sprintf("%q", o.any)
+						return
+					}
+				}
+			}
+		}(g)
+	}
+	// stimulus only: garbage collections preempt goroutines at arbitrary points and empty the pools
+	gcStop := make(chan struct{})
+	go func() {
+		for {
+			select {
+			case <-gcStop:
+				return
+			default:
+				runtime.GC()
+				time.Sleep(200 * time.Microsecond)
+			}
+		}
+	}()
+	close(start)
+	wg.Wait()
+	close(gcStop)
+	for g := range out {
+		st.dispatches += out[g].n
+		st.concDispatches += out[g].n
+		st.handlerPanics += out[g].panics
+		if out[g].key != "" {
+			return out[g].key, out[g].exp, out[g].obs
+		}
+	}
+	return "", "", ""
+}
+
 func descr(mt *mtable, i int) string {
 	if i == -1 {
 		return "no-route handler"
@@ -245,7 +356,7 @@ type mon struct{}
 func (mon) Name() string { return "route" }
 
 func (mon) Level(string) (string, string) {
-	return "exploration", "route tables × requests against a reference router written from the statement. Small scope, exhaustive: all tables of ≤3 routes over 58 patterns; thorough adds all 4-route tables over the 10 distinct ≤2-segment shapes × {GET,POST,*}; (≤2 segments over {a,b,:x,:y,*} and 3 segments over {a,:x,*}) × methods {GET,*} (POST added for tables of ≤2), each against 151 paths (all ≤4-segment paths over {a,b,''} incl. doubled/trailing slashes, look-alike segments ':x' and '*', and malformed paths '', '*', 'a', 'a/b', '//', '///a', ...) × methods {GET,POST,'',BREW}; alternative spellings of patterns (doubled/trailing slashes); seeded random tables of 5..40 routes over all ten methods with arbitrary-byte segments. Some handlers panic after observing (recovered by the harness) and later requests must be unaffected. Handler observes I, RouteParam of every name in the table + an unknown one, RouteParamAny; invocation count; recover(). distinct_nontrivial = distinct successfully registered tables (hash of the route list)"
+	return "exploration", "route tables × requests against a reference router written from the statement. Small scope, exhaustive: all tables of ≤3 routes over 58 patterns; thorough adds all 4-route tables over the 10 distinct ≤2-segment shapes × {GET,POST,*}; (≤2 segments over {a,b,:x,:y,*} and 3 segments over {a,:x,*}) × methods {GET,*} (POST added for tables of ≤2), each against 151 paths (all ≤4-segment paths over {a,b,''} incl. doubled/trailing slashes, look-alike segments ':x' and '*', and malformed paths '', '*', 'a', 'a/b', '//', '///a', ...) × methods {GET,POST,'',BREW}; alternative spellings of patterns (doubled/trailing slashes); seeded random tables of 5..40 routes over all ten methods with arbitrary-byte segments, a part of them served by 4..64 goroutines at once on the one Mux. Some handlers panic after observing (recovered by the harness) and later requests must be unaffected. Handler observes I, RouteParam of every name in the table + an unknown one, RouteParamAny; invocation count; recover(). distinct_nontrivial = distinct successfully registered tables (hash of the route list)"
 }
 
 func (mon) Assumptions(string) []string {
@@ -281,6 +392,10 @@ func (mon) Plan(prop, tier string, seed int64) []drv.Shard {
 	}
 	a, _ := json.Marshal(shardArgs{Kind: "spell"})
 	out = append(out, drv.Shard{Name: "spell", Args: a})
+	for i, gmp := range []string{"4", "16"} {
+		a, _ := json.Marshal(shardArgs{Kind: "conc", Part: i, Count: nrand / 400})
+		out = append(out, drv.Shard{Name: "conc-gomaxprocs" + gmp, Args: a, Env: []string{"GOMAXPROCS=" + gmp}})
+	}
 	for p := 0; p < parts; p++ {
 		a, _ := json.Marshal(shardArgs{Kind: "rand", Part: p, Parts: parts, Count: nrand / parts})
 		out = append(out, drv.Shard{Name: fmt.Sprintf("rand-%d", p), Args: a})
@@ -436,6 +551,15 @@ func (mn mon) Run(sh drv.Shard, c *drv.Ctx) {
 				}
 			}
 		}
+	case "conc":
+		r := rand.New(rand.NewSource(sh.Seed*15485863 + int64(a.Part)))
+		for i := 0; i < a.Count; i++ {
+			cs := randCase(r)
+			cs.Conc = []int{4, 16, 64}[r.Intn(3)]
+			if !exec(cs) {
+				break
+			}
+		}
 	case "rand":
 		r := rand.New(rand.NewSource(sh.Seed*7919 + int64(a.Part)))
 		for i := 0; i < a.Count; i++ {
@@ -449,6 +573,7 @@ func (mn mon) Run(sh drv.Shard, c *drv.Ctx) {
 		}
 	}
 	c.Add("handler_panics_recovered_by_harness", st.handlerPanics)
+	c.Add("dispatches_from_concurrent_goroutines", st.concDispatches)
 	c.Add("dispatches", st.dispatches)
 	c.Add("dispatch_matched", st.matched)
 	c.Add("dispatch_noroute", st.noroute)
